@@ -11,7 +11,7 @@ Import ListNotations.
 From BT Require Import Model.Skel Model.SkelTie Proof.SkelCert Proof.SkelProofs.
 
 Theorem C17_tie : G = guards_of_gen /\ g_release_stops_reader G = true /\ g_release_stops_renderer G = true /\ g_release_ignores G = true /\ g_ticker_stopped_by_stopper G = true /\
-  shapes_ok_for ["exec"; "waitForReadLoop"; "initCancelReader"; "standardRenderer.start"; "standardRenderer.stop"; "standardRenderer.listen"]%string = true.
+  shapes_ok_for ["exec"; "ReleaseTerminal"; "RestoreTerminal"; "restoreTerminalState"; "waitForReadLoop"; "initCancelReader"; "standardRenderer.start"; "standardRenderer.stop"; "standardRenderer.kill"; "standardRenderer.stopTicker"; "standardRenderer.listen"]%string = true.
 Proof. vm_compute. repeat split. Qed.
 Print Assumptions C17_tie.
 
